@@ -132,7 +132,7 @@ func GenView(r *Rng, o TreeOpts) []*MNode {
 			st.Size = int64(sz)
 			files = append(files, node)
 		}
-		if o.Xattrs && r.Chance(20) && (os.FileMode(st.Mode).IsDir() || os.FileMode(st.Mode)&os.ModeType == 0) {
+		if o.Xattrs && r.Chance(20) && (os.FileMode(st.Mode).IsDir() || os.FileMode(st.Mode)&os.ModeType == 0) { // user.* only on files and dirs
 			st.Xattrs = map[string][]byte{"user.k" + string(rune('a'+r.Intn(3))): fillContent(r, r.Intn(6))}
 			if r.Chance(30) {
 				st.Xattrs["user.z"] = []byte{0, 1, 2}
@@ -161,7 +161,7 @@ func GenView(r *Rng, o TreeOpts) []*MNode {
 		}
 		visit("", root)
 		groups := 1 + r.Intn(2)
-		used := map[*MNode]bool{}
+		used := map[*MNode]bool{} // a node belongs to at most one group
 		for g := 0; g < groups; g++ {
 			sz := 2 + r.Intn(3)
 			var members []*MNode
